@@ -74,6 +74,14 @@ def site_of (exc):
   return best or "?"
 
 
+OBJ_XIDS = (0x41414141, 0x62626262, 0x33333333, 0x6d6d6d6d)
+
+def ref_echo_request (xid, body):
+  """OpenFlow 1.0 echo request on the wire (version 1, type 2, length, xid, body) - written from the specification."""
+  import struct
+  return struct.pack("!BBHL", 1, 2, 8 + len(body), xid) + body
+
+
 def first_fatal (calls):
   for i, (n, kind) in enumerate(calls):
     if kind in ("epipe", "after-close", "after-shutdown", "after-fatal", "after-shutwr"): return i
@@ -118,9 +126,18 @@ class P1Sock (object):
     self.closed = 0
     self.shut = []             # (how, bytes accepted so far, send calls so far)
     self.shutwr = 0
+    # what the peer did (life-cycle scenarios): rx = None | "data" | "eof" | "reset" (what the next recv meets),
+    # exc = select reports an exceptional condition once
+    self.rx = None; self.exc = False
+    self.rxlog = []            # what recv calls delivered
+    self.rxfatal_at = None     # number of send calls made when a recv failed fatally
+    self.lost_by_peer = False  # EOF / reset delivered or exceptional condition reported
   def fileno (self): return 5
   def getpeername (self): return ("peer", 1)
+  def getsockname (self): return ("local", 2)
   def setblocking (self, b): pass
+  def setsockopt (self, *a): pass
+  def connect_ex (self, addr): return errno.EINPROGRESS
   def send (self, data, flags=0):
     n = len(data)
     if self.closed:
@@ -135,7 +152,22 @@ class P1Sock (object):
     if kind == "epipe": raise _socket.error(errno.EPIPE, "broken pipe")
     self.accepted += bytes(data[:k])
     return k
-  def recv (self, n, flags=0): raise _socket.error(errno.EAGAIN, "would block")
+  def recv (self, n, flags=0):
+    if self.closed: raise _socket.error(errno.EBADF, "bad file descriptor")
+    peek = bool(flags & _socket.MSG_PEEK)
+    if self.rx == "reset":
+      self.rxlog.append("reset"); self.lost_by_peer = True
+      if self.rxfatal_at is None: self.rxfatal_at = len(self.calls)
+      raise _socket.error(errno.ECONNRESET, "connection reset by peer")
+    if self.rx == "eof":
+      self.rxlog.append("eof-peek" if peek else "eof")
+      if not peek: self.lost_by_peer = True
+      return b""
+    if self.rx == "data":
+      if peek: return b"x"
+      self.rx = None; self.rxlog.append("data")
+      return b"xyz"
+    raise _socket.error(errno.EAGAIN, "would block")
   def shutdown (self, how):
     self.shut.append((how, len(self.accepted), len(self.calls)))
     if how in (_socket.SHUT_WR, _socket.SHUT_RDWR): self.shutwr += 1
@@ -505,6 +537,283 @@ def p1two_worker (c):
   return rep
 
 
+# ---- part 1, connection life cycles: what the peer does, workers that connect again -------------------------
+# worker kinds: the plain RecocoIOWorker (loop.new_worker) and the reconnecting workers of pox.lib.ioworker.workers /
+# pox.datapaths (the kind a software switch uses towards its controller).  A connection is lost by a scripted fatal
+# send error, a close() by the client, or by what the peer does (EOF, reset, exceptional condition; plain data is
+# the harmless member of that family); a reconnecting worker then opens another connection when its (captured)
+# timer is fired.  Every socket must accept exactly the messages queued on ITS connection.
+LIFE_KINDS = ("RecocoIOWorker", "PersistentIOWorker", "BackoffWorker", "OpenFlowWorker")
+LIFE_LOSS = (None, "close", "data", "eof", "reset", "exc")
+LIFE_MAXCONN = 3
+LIFE_MAXSTEPS = 80
+
+def life_hmsg (i):
+  """What the connect handler of the i-th connection queues (an alphabet of its own per connection)."""
+  return bytes([ord("R") + i]) * (3 + i)
+
+
+class SockShim (object):
+  """Stands in for the `socket` module inside pox.lib.ioworker.workers: socket.socket() is the execution's next
+  scripted socket."""
+  def __init__ (self, real): self._real = real; self.factory = None
+  def socket (self, *a, **k): return self.factory()
+  def __getattr__ (self, n): return getattr(self._real, n)
+
+_SHIM = None
+
+def life_setup ():
+  global _SHIM
+  import pox.lib.ioworker.workers as workers
+  import pox.datapaths as dp
+  if _SHIM is None:
+    _SHIM = SockShim(_socket)
+    workers.socket = _SHIM
+  return workers, dp
+
+
+class StubSwitch (object):
+  """What OpenFlowWorker needs of a switch: a dpid and set_connection (called when the connection is up)."""
+  dpid = 1
+  def __init__ (self, on_connection): self.on_connection = on_connection
+  def set_connection (self, connection): self.on_connection(connection)
+
+
+def life_exec (ctx, c):
+  """One execution.  c: dict(life=kind, api='send'|'fast', loss=None|'close'|'data'|'eof'|'reset'|'exc',
+  handler='none'|'send'|'fast', calls, bound).  Returns (bad, observation)."""
+  io = p1_setup()
+  workers, dp = life_setup()
+  from mc.env import boot
+  core = boot()
+  _LOG.records = []
+  script = Script(ctx, c["calls"], half=True)
+  loop = io.RecocoIOLoop()
+  pinger = loop.pinger
+  socks = []; queued = []; closes = []; connects = []; by_client = set()
+  regs = []; timers = []; hist = []
+  kind = c["life"]; persistent = kind != "RecocoIOWorker"
+
+  def mksock ():
+    sk = P1Sock(script, "%d" % len(socks)); sk.idx = len(socks)
+    socks.append(sk); queued.append([]); closes.append(0); connects.append(0)
+    return sk
+  _SHIM.factory = mksock
+  orig_register = loop.register_worker
+  def register (w):
+    regs.append(w); return orig_register(w)
+  loop.register_worker = register
+
+  def idx_of (w): return socks.index(w.socket)
+  def on_close (w): closes[idx_of(w)] += 1
+  def on_connect (w, via=None):
+    i = idx_of(w); connects[i] += 1
+    if c["handler"] != "none":
+      m = life_hmsg(i); queued[i].append(m); hist.append("connect-handler %d %s %s" % (i, c["handler"], m.decode()))
+      if via is not None and c["handler"] == "send": via.send(m)          # through the switch's OFConnection
+      else: (w.send if c["handler"] == "send" else w.send_fast)(m)
+
+  def cap_delayed (delay, f, *a, **kw): timers.append((f, a, kw))
+  def cap_later (f, *a, **kw): timers.append((f, a, kw))
+  saved = {}
+  for nm, fn in (("callDelayed", cap_delayed), ("call_delayed", cap_delayed), ("callLater", cap_later), ("call_later", cap_later)):
+    saved[nm] = core.__dict__.get(nm, saved)
+    setattr(core, nm, fn)
+  gen = None
+  st = dict(sel=None, alive=True, started=False, ops=0)
+  try:
+    if not persistent:
+      w0 = loop.new_worker(mksock())
+      w0.close_handler = on_close
+    else:
+      kw = dict(loop=loop, addr="192.0.2.1", port=6633, reconnect_delay=1, disconnect_callback=on_close)
+      if kind == "OpenFlowWorker":
+        kw["switch"] = StubSwitch(lambda conn: on_connect(conn.io_worker, conn))
+        cls = dp.OpenFlowWorker
+      else:
+        kw["connect_callback"] = on_connect
+        cls = getattr(workers, kind)
+      cls.begin(**kw)
+    gen = loop.run()
+    ops = [("q", 0), ("q", 1)]
+    if c["loss"] == "close": ops.append(("close",))
+    elif c["loss"]: ops.append(("peer", c["loss"]))
+    ops += [("q", 2)] if c.get("short") else [("q", 2), ("q", 3)]
+
+    def by_sock (ws): return sorted(ws, key=idx_of)
+
+    def answer ():
+      sel = st["sel"]
+      r, w, x = sel._args[0], sel._args[1], sel._args[2]
+      rl = [o for o in r if o is pinger and pinger.pings > 0]
+      rl += by_sock([o for o in r if o is not pinger and not o.socket.closed and o.socket.rx is not None])
+      xl = by_sock([o for o in x if not o.socket.closed and o.socket.exc])
+      return (rl, by_sock(list(w)), xl)
+
+    def loop_step (timeout=False):
+      st["ops"] += 1
+      try:
+        if not st["started"]:
+          st["started"] = True; st["sel"] = next(gen)
+        else:
+          a = ([], [], []) if timeout else answer()
+          for o in a[2]:
+            o.socket.exc = False; o.socket.lost_by_peer = True; o.socket.rxlog.append("exc")
+          st["sel"] = gen.send(a)
+      except StopIteration:
+        st["alive"] = False; st["sel"] = None
+
+    def can_loop ():
+      if not st["alive"]: return False
+      if not st["started"]: return True
+      a = answer()
+      return bool(a[0] or a[1] or a[2])
+
+    def check (quiescent=False):
+      if not st["alive"]:
+        exc = [r for r in _LOG.records if r[0] == "exception"]
+        where = "%s:%s" % (exc[-1][1], exc[-1][2]) if exc else "?"
+        return ("loop-died:" + where, "RecocoIOLoop.run ended (%s)" % where)
+      exc = [r for r in _LOG.records if r[0] == "exception"]
+      if exc:
+        return ("logged-exception:%s:%s" % (exc[0][1], exc[0][2]), "an exception was caught and logged inside the worker: %s at %s" % (exc[0][2], exc[0][1]))
+      for i, sk in enumerate(socks):
+        exp = b"".join(queued[i])
+        if not exp.startswith(sk.accepted):
+          others = b"".join(b"".join(queued[o]) for o in range(len(socks)) if o != i)
+          if any(ch in others and ch not in exp for ch in sk.accepted):
+            return ("stream-foreign-bytes", "connection %d: its socket accepted %r, which contains bytes queued on another connection (own queue %r, others %r)"
+                    % (i, sk.accepted, exp, others))
+          return ("stream-prefix", "connection %d: socket accepted %r which is not a prefix of the queued messages %r" % (i, sk.accepted, exp))
+        ff = first_fatal(sk.calls)
+        if ff is not None and len(sk.calls) > ff + 1:
+          return ("send-after-fatal", "connection %d: socket.send called again after a fatal send error: calls %r" % (i, sk.calls))
+        if sk.rxfatal_at is not None and len(sk.calls) > sk.rxfatal_at:
+          return ("send-after-fatal:recv-error", "connection %d: socket.recv failed fatally (connection reset) after %d send calls, yet socket.send was called again: calls %r"
+                  % (i, sk.rxfatal_at, sk.calls))
+        if closes[i] > 1:
+          return ("closed-twice", "connection %d: the close notification ran %d times" % (i, closes[i]))
+        if connects[i] > 1:
+          return ("connected-twice", "connection %d: the connect notification ran %d times" % (i, connects[i]))
+        lost = ff is not None or sk.lost_by_peer or i in by_client
+        if not lost and closes[i]:
+          return ("closed-spurious", "connection %d: close notification without a fatal error, a close request or a peer event" % i)
+        if quiescent:
+          if lost:
+            if closes[i] != 1:
+              return ("close-count", "connection %d is lost (fatal send error=%r, peer=%r, closed by client=%r) but the close notification ran %d times"
+                      % (i, ff is not None, sk.rxlog, i in by_client, closes[i]))
+          elif sk.accepted != exp:
+            return ("stream-incomplete", "connection %d: at quiescence the socket accepted %r of %r" % (i, sk.accepted, exp))
+      return None
+
+    bad = None; qi = 0; timeouts = 0
+    while bad is None:
+      if st["ops"] > LIFE_MAXSTEPS:
+        bad = ("step-limit", "more than %d steps" % LIFE_MAXSTEPS); break
+      cur = regs[-1]
+      cq = qi < len(ops) and (not persistent or ops[qi][0] == "peer" or not cur.closed)
+      en = []
+      if cq: en.append("client")
+      if can_loop(): en.append("loop")
+      if timers and len(socks) < LIFE_MAXCONN: en.append("timer")
+      if not en:
+        if timeouts >= 2 or not st["alive"]:
+          bad = check(quiescent=True); break
+        timeouts += 1
+        loop_step(timeout=True); hist.append("timeout")
+        bad = check(); continue
+      timeouts = 0
+      what = en[ctx.choose(len(en), "next-op", costly=False)] if len(en) > 1 else en[0]
+      if what == "client":
+        op = ops[qi]; qi += 1
+        st["ops"] += 1
+        try:
+          if op[0] == "peer":
+            sk = socks[-1]; hist.append("peer %s %d" % (op[1], sk.idx))
+            if op[1] == "exc": sk.exc = True
+            else: sk.rx = op[1]
+          elif op[0] == "close":
+            i = idx_of(cur); by_client.add(i); hist.append("close %d" % i)
+            cur.close()
+          else:
+            m = MSGS[op[1]]; i = idx_of(cur)
+            queued[i].append(m); hist.append("%s %d %s" % (c["api"], i, m.decode()))
+            (cur.send if c["api"] == "send" else cur.send_fast)(m)
+        except Exception as e:
+          bad = ("raises:%s:%s" % (site_of(e), type(e).__name__), "%r raised %s: %s" % (op, type(e).__name__, e))
+          break
+      elif what == "timer":
+        st["ops"] += 1
+        f, a, kw = timers.pop(0); hist.append("timer")
+        try:
+          f(*a, **kw)
+        except Exception as e:
+          bad = ("raises:%s:%s" % (site_of(e), type(e).__name__), "the reconnect timer raised %s: %s" % (type(e).__name__, e))
+          break
+      else:
+        loop_step(); hist.append("loop")
+      bad = check()
+  finally:
+    for nm, v in saved.items():
+      if v is saved: core.__dict__.pop(nm, None)
+      else: setattr(core, nm, v)
+    _SHIM.factory = None
+    if gen is not None:
+      try: gen.close()
+      except Exception: pass
+  obs = dict(life=kind, api=c["api"], loss=c["loss"], handler=c["handler"], history=hist,
+             socket_calls=[list(sk.calls) for sk in socks], peer=[list(sk.rxlog) for sk in socks],
+             accepted=[sk.accepted for sk in socks], queued=[b"".join(q) for q in queued],
+             close_notifications=list(closes), connect_notifications=list(connects), steps=st["ops"])
+  return bad, obs
+
+
+def life_configs (cfg):
+  cs = []
+  for kind in LIFE_KINDS:
+    plain = kind == "RecocoIOWorker"
+    for api in ("send", "fast"):
+      for loss in LIFE_LOSS:
+        if plain and loss in (None, "close"): continue        # p1_configs / p1two_configs have these
+        handlers = ("none",) if plain else ("none", "send", "fast")
+        for h in handlers:
+          if plain:
+            cs.append(dict(part=1, life=kind, api=api, loss=loss, handler=h, calls=6, short=cfg.quick, bound=cfg.pick(1, 2)))
+          elif h == api:
+            # three client messages (two before the loss, one after).  quick: every reconnecting kind, both API forms
+            # on the kind the software switch uses
+            if cfg.quick and (kind, api) in (("PersistentIOWorker", "fast"), ("BackoffWorker", "send")): continue
+            cs.append(dict(part=1, life=kind, api=api, loss=loss, handler=h, calls=6, short=True,
+                           bound=cfg.pick(2, 3) if loss is None else cfg.pick(1, 2)))
+          elif not cfg.quick:
+            # the handler's API form differs from the client's (or it queues nothing): four client messages
+            cs.append(dict(part=1, life=kind, api=api, loss=loss, handler=h, calls=6, short=False, bound=1))
+  return cs
+
+
+def life_name (c):
+  return "p1/life/%s/%s/%s/handler-%s/%dmsgs" % (c["life"], c["api"], c["loss"] or "send-faults-only", c["handler"], 3 if c.get("short") else 4)
+
+
+def life_worker (c):
+  rep = Report(PID, "model_checking")
+  def on_exec (ctx, res):
+    bad, obs = res
+    rep.evaluations += 1
+    rep.transitions += obs["steps"]
+    rep.outcome(("life", obs["life"], obs["api"], obs["loss"], obs["handler"], obs["history"], obs["socket_calls"], obs["peer"],
+                 obs["accepted"], obs["close_notifications"], bad and bad[0]))
+    if rep.evaluations % 997 == 1: rep.sample(dict(part=1, **obs))
+    if bad:
+      rep.violation("%s:p1:%s" % (PID, bad[0]), "%s [%s]" % (bad[1], life_name(c)),
+                    dict(part=1, config=c, choices=ctx.choices()))
+  explore(lambda ctx: life_exec(ctx, c), dev_bound=c["bound"], on_exec=on_exec)
+  rep.extra["execs:" + life_name(c)] = rep.evaluations
+  rep.state_count = rep.evaluations
+  return rep
+
+
 # ===========================================================================================
 # PART 2: Connection.send (cooperative thread) and DeferredSender.run (its own thread)
 # ===========================================================================================
@@ -760,6 +1069,12 @@ def p2_exec (ctx, c):
         if k.read() is False:
           k.close()
 
+  mobj = None
+  W.sent_obj = [[] for _ in range(c["ncons"])]
+  if c.get("form") == "object":
+    import pox.openflow.libopenflow_01 as of
+    mobj = of.ofp_echo_request()
+
   def coop ():
     for pi, (ci, mi) in enumerate(c["plan"]):
       if ci < 0:                   # one pass of the I/O loop at this point of the plan
@@ -773,9 +1088,19 @@ def p2_exec (ctx, c):
           if deferred_idle(): went_idle[0] = True      # latched: evaluated at every switch while we wait
           return went_idle[0]
         S.block(later, what="later")
-      W.expected[ci] += MSGS[mi]
-      W.cons[ci].send(MSGS[mi])
+      if mobj is None:
+        W.expected[ci] += MSGS[mi]
+        W.cons[ci].send(MSGS[mi])
+      else:
+        # API form "message object": ONE object is re-used for every send of the plan (as components do with a
+        # flow-mod they re-address); what is queued is the message as it was when send() was called
+        mobj.xid = OBJ_XIDS[mi]; mobj.body = MSGS[mi]
+        W.expected[ci] += ref_echo_request(OBJ_XIDS[mi], MSGS[mi])
+        W.sent_obj[ci].append(ref_echo_request(OBJ_XIDS[mi], MSGS[mi]))
+        W.cons[ci].send(mobj)
       S.point("sent")
+    if mobj is not None:
+      mobj.xid = 0x7e7e7e7e; mobj.body = b"~~~~~~~~~"      # the caller goes on using its object
     if c.get("eof") is not None:
       W.socks[c["eof"]].eof = True           # the peer closed: the I/O loop below reads EOF
     # what OpenFlow_01_Task does: select on the open connections, read, close on EOF
@@ -815,7 +1140,18 @@ def p2_exec (ctx, c):
     calls = [(n, k) for n, k, who in sk.calls]
     lost = con.disconnected or sk.closed or sk.shut
     if not W.expected[i].startswith(sk.accepted):
-      bad.append(("stream-prefix", "connection %d: socket accepted %r which is not a prefix of the sent messages %r"
+      clause = "stream-prefix"
+      if mobj is not None:
+        # does the stream diverge into a LATER state of the caller's message object?
+        off = 0; rest = None
+        for enc in W.sent_obj[i]:
+          if sk.accepted[off:off + len(enc)] == enc: off += len(enc)
+          else:
+            rest = sk.accepted[off:]; break
+        later = [e for q in W.sent_obj for e in q] + [ref_echo_request(0x7e7e7e7e, b"~~~~~~~~~")]
+        if rest and any(e != enc and (rest.startswith(e) or e.startswith(rest)) for e in later):
+          clause = "stream-prefix:message-object-read-after-send-returned"
+      bad.append((clause, "connection %d: socket accepted %r which is not a prefix of the sent messages %r"
                   % (i, sk.accepted, W.expected[i])))
     elif not died and not lost and first_fatal(calls) is None and sk.accepted != W.expected[i]:
       bad.append(("stream-incomplete", "connection %d: at quiescence the socket accepted %r of %r" % (i, sk.accepted, W.expected[i])))
@@ -857,7 +1193,7 @@ def p2_name (c):
                                 "/down-listener-sends-on-1" if c.get("listener") else "")
   return "p2/%dcon%s%s%s%s/plan%s%s" % (c["ncons"], "" if c.get("eof") is None else "/eof%d" % c["eof"],
                                      "/pipebuf%d" % c["pipe_buf"] if c.get("pipe_buf") else "",
-                                     "", "/rotate" if c.get("rotate") else "",
+                                     "/one-message-object-reused" if c.get("form") == "object" else "", "/rotate" if c.get("rotate") else "",
                                      "".join("%d" % ci if ci >= 0 else "i" for ci, mi in c["plan"]), bl)
 
 
@@ -896,7 +1232,14 @@ def p2_configs (cfg):
   for sc in (LISTEN_DEFERRED, LISTEN_DEFERRED_B, LISTEN_DIRECT):
     for (b, s) in cfg.pick([(2, 0), (1, 1)], [(2, 1), (3, 0), (1, 2)]):
       add(2, sc["plan"], None, b, s, calls=6, defaults=sc["defaults"], waits=sc["waits"], listener=True)
-  def addb (bl, plan, waits, b, s): add(2, plan, None, b, s, calls=6, backlog=BACKLOGS[bl], waits=waits)
+  def addb (bl, plan, waits, b, s, **kw): add(2, plan, None, b, s, calls=6, backlog=BACKLOGS[bl], waits=waits, **kw)
+  # API form: a message OBJECT (packed by Connection.send) instead of bytes, the same object re-used for every send
+  for (b, s) in cfg.pick([(1, 1)], [(2, 1), (1, 2)]):
+    add(1, ONE, None, b, s, form="object")
+    if not cfg.quick: add(2, TWO, 0, b, s, form="object")
+  addb(0, ABA, [2], 1, cfg.pick(0, 1), form="object")
+  addb(0, ABA, [], 1, 0, form="object")
+  if not cfg.quick: add(1, ONE, None, 1, 2, pipe_buf=3, form="object")
   if cfg.quick:
     addb(0, ABA, [2], 2, 0); addb(0, ABA, [2], 1, 1)
     for bl in range(len(BACKLOGS)):
@@ -1004,6 +1347,10 @@ def run (cfg):
   if only: c1b = [c for c in c1b if only in p1two_name(c)]
   for r in pmap(p1two_worker, c1b, cfg.workers, seed=cfg.seed):
     rep.merge(r)
+  c1c = life_configs(cfg)
+  if only: c1c = [c for c in c1c if only in life_name(c)]
+  for r in pmap(life_worker, c1c, cfg.workers, seed=cfg.seed):
+    rep.merge(r)
   # ---- part 2
   c2 = p2_configs(cfg)
   if only: c2 = [c for c in c2 if only in p2_name(c)]
@@ -1040,15 +1387,30 @@ def run (cfg):
               "third controlled thread (the peer) drains it, first 6 sock.send calls scripted; fatal-error scenarios with a "
               "ConnectionDown listener on connection 0 that send()s on connection 1 from inside the handler (fatal error in the deferred "
               "flush: default scripts [one,epipe] / [eagain,epipe]; on the direct write path: [epipe] followed by an I/O-loop pass), then two "
-              "later sends on connection 1.  "
+              "later sends on connection 1; API form 'message object': the sends of plan 0,0,0 and of the first back-pressure scenario "
+              "made with ONE ofp_echo_request object whose xid/body are set before each send and changed again after the last "
+              "(expected bytes = the message as it was when send() was called, encoded from the specification).  "
+              "part 1 life cycles: worker kinds %r (the reconnecting kinds on scripted sockets made by a stand-in for workers.socket, "
+              "their reconnect timer captured from core.callDelayed and fired as an explorer-chosen step, at most %d connections), "
+              "client sends m1 m2 [loss] m3 (where stated: m4) on the current connection, loss in %r (None = scripted send faults only; "
+              "close = client close(); data/eof/reset = what the socket's next recv meets, exc = select reports an exceptional "
+              "condition), connect handler queues nothing / send / send_fast of a per-connection message; every interleaving of "
+              "client step, loop iteration and timer x send-outcome scripts with <= %d (no loss event: %d; four-message variants: 1) non-default outcomes; every "
+              "socket accepts a prefix of what was queued on its own connection, no send after a fatal send OR recv error, "
+              "close notification exactly once per lost connection.  "
               "distinct = (variant, history/verdict, socket calls, accepted bytes, notifications, failed clauses)"
-              % (list(MSGS[:3]), cfg.pick(2, 3), ", ".join(FUNCS), BACKLOGS))
-  rep.bound = dict(part1=dict(configs=len(c1) + len(c1b), send_calls_scripted=6, script_deviations=cfg.pick(2, 3)),
+              % (list(MSGS[:3]), cfg.pick(2, 3), ", ".join(FUNCS), BACKLOGS, list(LIFE_KINDS), LIFE_MAXCONN, list(LIFE_LOSS),
+                 cfg.pick(1, 2), cfg.pick(2, 3)))
+  rep.bound = dict(part1=dict(configs=len(c1) + len(c1b) + len(c1c), send_calls_scripted=6, script_deviations=cfg.pick(2, 3),
+                              life_cycle_configs=len(c1c), life_cycle_connections=LIFE_MAXCONN),
                    part2=dict(configs=len(c2), send_calls_scripted=4, scheduling_points_default_execution=pts))
   rep.assumptions = ["C-level atomicity of dict/list operations (CPython GIL); code outside the listed of_01 functions runs atomically between scheduling points",
                      "modelled RLock/select/waker (mc/thr.py); the fake socket is always writable until closed, a shut-down socket is readable/writable and fails sends with EPIPE, "
                      "select on a closed socket raises ValueError like select.select; DeferredSender's 5 s select timeout is a polling interval never fired while data is queued",
-                     "fatal errors are those of send calls; EOF is delivered to the cooperative thread only after its three sends",
+                     "part 2: fatal errors are those of send calls; EOF is delivered to the cooperative thread only after its three sends",
+                     "part 1 life cycles: a client does not send on a reconnecting worker between the loss of its connection and the next connection "
+                     "(the statement does not say where such messages belong); EOF and an exceptional condition lose the connection but are not "
+                     "'fatal socket errors': only a recv that raises (connection reset) forbids further sends",
                      "back-pressure scenarios: a short write or EAGAIN means the socket buffer is full; it stays unwritable (select) and refuses sends (EAGAIN) until the peer thread drains it",
                      "part 1: queueing after SHUT_WR was issued is a client error and is not explored; SHUT_WR is only demanded when shutdown() was requested while bytes were unsent",
                      "no partial-order reduction: counts are schedules x scripts, not equivalence classes"]
@@ -1063,6 +1425,13 @@ def explains (known_key, key):
 
 def replay (cfg, data):
   c = dict(data["config"])
+  if data.get("part") == 1 and c.get("life"):
+    bad, obs = life_exec(Ctx(list(data["choices"])), c)
+    lines = [life_name(c)]
+    for k in ("history", "queued", "socket_calls", "peer", "accepted", "close_notifications", "connect_notifications"):
+      lines.append("  %-22s %r" % (k, obs[k]))
+    lines.append("=> %r" % (bad,))
+    return bool(bad), "\n".join(lines)
   if data.get("part") == 1 and c.get("two"):
     bad, obs = p1two_exec(Ctx(list(data["choices"])), c)
     lines = [p1two_name(c)]
